@@ -88,6 +88,8 @@ fn table() -> TableHandler {
             rf(true, &[], &[0]),                                                                         // 10: only blocks fa
             Row { role: 1, scheduled: true, reads: vec![0], captures: vec![0], frames: Some((vec![0], vec![])), ..Row::default() }, // 11: read a + capture a on fa
             Row { role: 1, scheduled: false, reads: vec![0], writes: vec![0], captures: vec![0], frames: Some((vec![1], vec![])), ..Row::default() }, // 12: read + write + capture a
+            rf(false, &[], &[0]),                                                                        // 13: UNTIMED, uses nothing, blocks fa (RESET-like)
+            rf(false, &[], &[0, 1]),                                                                     // 14: untimed, blocks fa and fb
         ],
     }
 }
@@ -147,6 +149,15 @@ fn run(ctx: &mut Ctx) {
                 }
             });
         }
+    }
+
+    // frame-set shapes: RF instructions with used = {} and blocked != {} (RESET q on multi-qubit-only frames, bare
+    // RESET, blocking pulses on undefined frames) alone / first / last / between, projected and as AST
+    for text in frame_shape_programs() {
+        let program = parse(&text);
+        let input = project_program(&program, &DefaultHandler);
+        ctx.case(tagged("corpus", vec![input]), || run_from_program(&program, &DefaultHandler));
+        ast_case(ctx, &text);
     }
 
     let n_random = if quick { 5000 } else { 200_000 };
